@@ -96,26 +96,3 @@ Definition check_case := check_gen true true.
 (* the code as it was at the pinned commit *)
 Definition check_case_old := check_gen false false.
 
-(* classification helpers for the harness: does the model predict that the
-   formula_terms attributes written for one shared coordinate variable
-   disagree (F09d/F09e)? *)
-Definition owner_terms (o : fout) (f : field) : list (nat * option (list nat)) :=
-  (* every dimension-coordinate variable of the field with the terms this field wants on it *)
-  flat_map (fun x => match x with
-     | (a, Some v) =>
-         [(v, match ft f with
-              | Some fr => if Nat.eqb (f_z fr) a then
-                             match f_terms fr with
-                             | [] => None
-                             | _ => Some (map (fun j => nth j (o_anc o) 0%nat) (f_terms fr))
-                             end
-                           else None
-              | None => None end)]
-     | (_, None) => [] end)
-    (combine (seq 0 (length (o_dim o))) (o_dim o)).
-
-Definition ft_conflict (fx : bool) (fs : list field) : bool :=
-  let '(st, os) := write_fields fx fs st0 in
-  let all := concat (map (fun p => owner_terms (fst p) (snd p)) (combine os fs)) in
-  existsb (fun x => existsb (fun y => Nat.eqb (fst x) (fst y) &&
-                                      negb (option_eqb (list_eqb Nat.eqb) (snd x) (snd y))) all) all.
